@@ -82,7 +82,13 @@ pub fn eval_node<F: FnMut(&GraphColoredVertices, &str)>(
                 .clone();
 
             // if we already visited all of the duplicates, lets delete the cached value
-            if eval_context.duplicates[&canonized_formula_with_domains] == 0 {
+            // (sets for wild-card propositions are never deleted - they cannot be recomputed, and
+            // a sub-formula that could not be cached may be evaluated more often than planned)
+            let is_wild_card = matches!(
+                node.node_type,
+                NodeType::Terminal(Atomic::WildCardProp(_))
+            );
+            if eval_context.duplicates[&canonized_formula_with_domains] == 0 && !is_wild_card {
                 eval_context
                     .duplicates
                     .remove(&canonized_formula_with_domains);
@@ -101,7 +107,13 @@ pub fn eval_node<F: FnMut(&GraphColoredVertices, &str)>(
             return result;
         } else {
             // if the cache does not contain result for this subformula, set insert flag
-            save_to_cache = true;
+            // The result may only be shared if it does not depend on a domain restriction that is not
+            // part of the cache key: inside `3{x} in %d%:` the graph is restricted to `x in d`, and
+            // a sub-formula that does not contain `x` is cached under a key that does not mention `d`.
+            save_to_cache = eval_context
+                .free_var_domains
+                .iter()
+                .all(|(var, domain)| domain.is_none() || renaming.contains_key(var));
         }
     }
 
